@@ -87,6 +87,7 @@ func runC09(c *Ctx) {
 	ruleReadLoopExits(c, "C09.7")
 	rulePanicSites(c, "C09.8", fns)
 	ruleNilReceivers(c, "C09.9", fns)
+	ruleTypedNil(c, "C09.10")
 }
 
 // ---------------------------------------------------------------------------------
@@ -776,4 +777,66 @@ func ruleNilReceivers(c *Ctx, rule string, fns []*ssa.Function) {
 			uses(res)
 		})
 	}
+}
+
+// ruleTypedNil (C09.10): no module function returns a nil pointer wrapped in an interface: the
+// caller's `x == nil` test is false for it and the first method call dereferences nil.
+func ruleTypedNil(c *Ctx, rule string) {
+	w := c.W
+	c.Rule(rule, "no typed nil: in every module function with an interface-typed result, a returned value that is a pointer converted to the interface (MakeInterface) cannot be the nil pointer on any path (every leaf of the pointer, through phis and multi-store locals, is non-nil): a nil *T inside a non-nil interface defeats the caller's nil test and panics on first use", 1)
+	n := 0
+	for _, fn := range w.ModFns {
+		if fn.Synthetic != "" || len(fn.Blocks) == 0 {
+			continue
+		}
+		res := fn.Signature.Results()
+		for i := 0; i < res.Len(); i++ {
+			if _, isI := res.At(i).Type().Underlying().(*types.Interface); !isI {
+				continue
+			}
+			for _, r := range returnsOf(fn) {
+				if i >= len(r.Results) {
+					continue
+				}
+				checkTypedNil(c, rule, fn, r, r.Results[i], &n)
+			}
+		}
+	}
+	if n == 0 {
+		c.Bad(rule, "-", "interface results", "-", "no pointer-in-interface result found in the module: anchor gone")
+	}
+}
+
+func checkTypedNil(c *Ctx, rule string, fn *ssa.Function, r *ssa.Return, v ssa.Value, n *int) {
+	w := c.W
+	seen := map[ssa.Value]bool{}
+	var visit func(v ssa.Value, at ssa.Instruction)
+	visit = func(v ssa.Value, at ssa.Instruction) {
+		v = w.resolveLoad(v)
+		if seen[v] {
+			return
+		}
+		seen[v] = true
+		switch x := v.(type) {
+		case *ssa.Phi:
+			for _, e := range x.Edges {
+				visit(e, at)
+			}
+		case *ssa.MakeInterface:
+			if _, isP := x.X.Type().Underlying().(*types.Pointer); !isP {
+				return
+			}
+			*n++
+			c.Anchor(rule, fname(fn))
+			for _, lf := range w.guardedLeaves(x.X, x) {
+				if isNilConst(lf.val) {
+					// a nil leaf guarded by "x != nil" on its own edge is infeasible
+					c.Bad(rule, fname(fn), "interface result", w.instrPos(r), "the "+x.X.Type().String()+" returned as "+x.Type().String()+" can be nil ("+lf.at+"): the interface value is then non-nil, the caller's nil test passes and the first method call dereferences a nil pointer")
+					return
+				}
+			}
+			c.OK(rule, fname(fn), "interface result", w.instrPos(r), "the pointer wrapped in the interface is non-nil on every path")
+		}
+	}
+	visit(v, r)
 }
